@@ -115,6 +115,18 @@ AdmissibleStep(ctx, mayDot, ab, X) ==
         empties == IF DropLeadDot(X) = <<>> /\ ctx.authority # NULL THEN {<<>>, <<cSLASH>>} ELSE {}
     IN  base \cup {c \in empties : ValidIn(ctx, c)}
 
+(* The same judgement for ONE observed text c (trace validation): c is a member of   *)
+(* AdmissibleStep(ctx, mayDot, ab, X) - written so that the language membership of c *)
+(* (validC = ValidIn(ctx, c), the expensive part) is computed once by the caller.    *)
+AdmitsView(ctx, mayDot, ab, X, c, validC) ==
+    LET Y == DropLeadDot(X)
+        isDotted == Segs(c) = <<DOT>> \o Y
+        plain == PlainOf(ab, X)
+    IN  \/ /\ validC /\ ReadsAs(c, ab, X)
+           /\ (isDotted /\ c # Join(ab, X) /\ ~mayDot)
+                 => (NeedsShield(Y) /\ (ctx.kind = "path" \/ ~(ReadsAs(plain, ab, X) /\ ValidIn(ctx, plain))))
+        \/ /\ validC /\ Y = <<>> /\ ctx.authority # NULL /\ c \in {<<>>, <<cSLASH>>}
+
 (* For the operations with directory meaning a list made of one empty segment and  *)
 (* the empty list are the same directory ("/./" = "/", "./" = ""): the abstract    *)
 (* value may be either, and a behaviour forks on which one the implementation has. *)
